@@ -118,4 +118,5 @@ pub fn utf8_tokens() -> Vec<&'static [u8]> {
          b"\x80", b"\xFF", b"\xED\xA0", b"\xE0\x80", b"\xF4\x90", b"\xC0\xAF", b"\xEF\xBB\xBF"]
 }
 /// UTF-16 code units for unit-level stream enumeration
-pub const UTF16_UNITS: [u16; 8] = [0x0000, 0x0041, 0xD800, 0xDBFF, 0xDC00, 0xDFFF, 0xFFFE, 0x4E00];
+/// (with both neighbours of the surrogate range: a pairing test whose bound is off by one fuses D7FF / E000 into a pair)
+pub const UTF16_UNITS: [u16; 10] = [0x0000, 0x0041, 0xD800, 0xDBFF, 0xDC00, 0xDFFF, 0xFFFE, 0x4E00, 0xD7FF, 0xE000];
